@@ -144,6 +144,8 @@ def ref_eval(q, docs):
             return frozenset(), frozenset()
         if op in ("and", "require"):
             subs = [ev(s) for s in (q["qs"] if op == "and" else [q["a"], q["b"]])]
+            if not subs:  # whoosh: a compound without clauses matches nothing
+                return frozenset(), frozenset()
             lo, hi = subs[0]
             for l, h in subs[1:]:
                 lo, hi = lo & l, hi & h
@@ -242,17 +244,42 @@ def to_whoosh(q):
     if op == "fuzzy":
         return wq.FuzzyTerm(q["f"], q["x"], boost=b, maxdist=q.get("maxdist", 1),
                             prefixlength=q.get("prefixlength", 1), constantscore=q.get("cs", True))
+    # span / positional query types (C15/C11 only; no reference semantics in ref_eval)
+    from whoosh.query import spans
+    if op == "span_near2":
+        return spans.SpanNear2([to_whoosh(s) for s in q["qs"]], slop=q.get("slop", 1), ordered=q.get("ordered", True),
+                               mindist=q.get("mindist", 1))
+    if op == "span_near":
+        return spans.SpanNear(to_whoosh(q["a"]), to_whoosh(q["b"]), slop=q.get("slop", 1),
+                              ordered=q.get("ordered", True), mindist=q.get("mindist", 1))
+    if op == "span_first":
+        return spans.SpanFirst(to_whoosh(q["q"]), limit=q.get("limit", 0))
+    if op == "span_not":
+        return spans.SpanNot(to_whoosh(q["a"]), to_whoosh(q["b"]))
+    if op == "span_or":
+        return spans.SpanOr([to_whoosh(s) for s in q["qs"]])
+    if op == "span_contains":
+        return spans.SpanContains(to_whoosh(q["a"]), to_whoosh(q["b"]))
+    if op == "span_before":
+        return spans.SpanBefore(to_whoosh(q["a"]), to_whoosh(q["b"]))
+    if op == "sequence":
+        return wq.Sequence([to_whoosh(s) for s in q["qs"]], slop=q.get("slop", 1), ordered=q.get("ordered", True),
+                           boost=b)
+    if op == "ordered":
+        return wq.Ordered([to_whoosh(s) for s in q["qs"]], boost=b)
+    if op == "variations":
+        return wq.Variations(q["f"], q["x"], boost=b)
     raise ValueError(op)
 
 
 def shape(q):
     """query shape (operator tree without leaf texts) used for distinctness"""
     op = q["op"]
-    if op in ("and", "or", "dismax"):
+    if op in ("and", "or", "dismax", "span_near2", "span_or", "sequence", "ordered"):
         return [op] + [shape(s) for s in q["qs"]]
-    if op in ("not", "const"):
+    if op in ("not", "const", "span_first"):
         return [op, shape(q["q"])]
-    if op in ("andnot", "andmaybe", "require"):
+    if op in ("andnot", "andmaybe", "require", "span_near", "span_not", "span_contains", "span_before"):
         return [op, shape(q["a"]), shape(q["b"])]
     return op
 
@@ -260,14 +287,14 @@ def shape(q):
 def walk(q):
     yield q
     op = q["op"]
-    if op in ("and", "or", "dismax"):
+    if op in ("and", "or", "dismax", "span_near2", "span_or", "sequence", "ordered"):
         for s in q["qs"]:
             for x in walk(s):
                 yield x
-    elif op in ("not", "const"):
+    elif op in ("not", "const", "span_first"):
         for x in walk(q["q"]):
             yield x
-    elif op in ("andnot", "andmaybe", "require"):
+    elif op in ("andnot", "andmaybe", "require", "span_near", "span_not", "span_contains", "span_before"):
         for x in walk(q["a"]):
             yield x
         for x in walk(q["b"]):
